@@ -12,6 +12,9 @@ Record cfg_rel (cs cm : cfg) : Prop := {
   cr_magic : magic_int cs = magic_int cm;
   cr_version : version cs = version cm;
   cr_flag : flag_ref_ok cm = true;
+  cr_mask_s : mask_flag cs = true;
+  cr_mask_m : mask_flag cm = true;
+  cr_unk : unknown_err cs = true;
   cr_codes : forall t, 0 <= t < 128 -> code_ok cs t = true -> code_ok cm t = true
 }.
 
@@ -318,7 +321,7 @@ Proof.
   induction fuel as [|f IH]; intros ss sm v ss' Hr H; [discriminate H|].
   cbn [r_object] in *. destruct Hr as (R1 & R2 & R3). rewrite <- R1.
   destruct (inp ss) as [|byte1 l] eqn:Ei; [discriminate H|].
-  rewrite Hs in H. rewrite Hm. cbn [andb] in *.
+  rewrite Hs in H. rewrite Hm. rewrite (cr_mask_s _ _ Hc) in H. rewrite (cr_mask_m _ _ Hc). rewrite (cr_unk _ _ Hc) in H. cbn [andb] in *.
   destruct (negb (Z.land byte1 128 =? 0) && negb (flag_ref_ok cs)); [discriminate H|].
   destruct (code_ok cs (Z.land byte1 127)) eqn:Ec; cbn [negb] in H; [|discriminate H].
   rewrite (cr_codes _ _ Hc _ (land127_range byte1) Ec). cbn [negb].
